@@ -238,8 +238,19 @@ func verifOperandFacts(n string, o verifOperand) {
 
 func verifBinaryHarness(tag string, ops []token.Token, kinds []types.BasicKind) {
 	op := ops[vp.Choose("op", len(ops))]
-	x := verifChooseOperand("x", kinds)
-	y := verifChooseOperand("y", kinds)
+	var x, y verifOperand
+	if vp.Thorough() || len(kinds) <= 7 {
+		x = verifChooseOperand("x", kinds)
+		y = verifChooseOperand("y", kinds)
+	} else {
+		// quick tier: every kind on one side, the partner is the same kind or one of three fixed kinds
+		x = verifChooseOperand("x", kinds)
+		partners := []types.BasicKind{x.kind, types.UntypedInt, types.UntypedFloat, types.Int8}
+		y = verifOperandOfKind("y", partners[vp.Choose("y.k", len(partners))])
+		if vp.Choose("swap", 2) == 1 {
+			x, y = y, x
+		}
+	}
 	verifFacts(op, x, y)
 	reason, res := verifSpecBinary(op, x, y)
 	class, ret := verifRunBinary(op, x, y)
@@ -252,12 +263,12 @@ func verifBinaryHarness(tag string, ops []token.Token, kinds []types.BasicKind) 
 // Arithmetic and bit operators on numeric constants.
 func VerifH_K_binop_arith() {
 	verifBinaryHarness("arith", []token.Token{token.ADD, token.SUB, token.MUL, token.QUO, token.REM,
-		token.AND, token.OR, token.XOR, token.AND_NOT}, verifNumKinds())
+		token.AND, token.OR, token.XOR, token.AND_NOT}, verifNumKindsAll)
 }
 
 // Comparisons on all constant kinds.
 func VerifH_K_binop_cmp() {
-	verifBinaryHarness("cmp", []token.Token{token.EQL, token.NEQ, token.LSS, token.LEQ, token.GTR, token.GEQ}, verifKinds())
+	verifBinaryHarness("cmp", []token.Token{token.EQL, token.NEQ, token.LSS, token.LEQ, token.GTR, token.GEQ}, verifKindsAll)
 }
 
 // Every binary operator on bool/string/mixed kinds (operator applicability and kind mismatches).
